@@ -9,6 +9,7 @@ import (
 	"context"
 
 	k1 "github.com/decred/dcrd/dcrec/secp256k1/v4"
+	"google.golang.org/protobuf/proto"
 	"google.golang.org/protobuf/types/known/anypb"
 
 	"github.com/obolnetwork/charon/core"
@@ -230,6 +231,7 @@ func VerifC05Tamper() {
 	j0, p0 := vDrawMsg("j0", jslot, jtyp, hashes)
 	j1, p1 := vDrawMsg("j1", slot, dtyp, hashes)
 	sm, s0, s1 := vSignBy(main, mp), vSignBy(j0, p0), vSignBy(j1, p1)
+	gen := [3]*pbv1.QBFTMsg{proto.Clone(sm).(*pbv1.QBFTMsg), proto.Clone(s0).(*pbv1.QBFTMsg), proto.Clone(s1).(*pbv1.QBFTMsg)}
 	field := int(vrt.Byte("field"))
 	nv := vrt.Byte("newvalue")
 	vrt.Assume(field >= 1 && field <= vTamperKinds)
@@ -249,10 +251,42 @@ func VerifC05Tamper() {
 			vals[0] = vAny(v0 ^ nv)
 		}
 	}
-	msg := &pbv1.QBFTConsensusMsg{Msg: sm, Justification: []*pbv1.QBFTMsg{s0, s1}, Values: vals}
-	_, _, err := c.handle(context.Background(), "", msg)
 	duty := core.Duty{Slot: slot, Type: core.DutyType(dtyp)}
+	ctx := context.Background()
+	prime := vrt.Param("prime") == 1 && target >= 1 && target <= 6
+	if prime {
+		// the genuine message is handled first (same node, same duty), then the altered copy
+		vrt.Assume(jslot == slot && jtyp == dtyp)
+	}
+	if target == 7 {
+		// the receive deadline has already fired: nothing may be accepted
+		cctx, cancel := context.WithCancel(ctx)
+		cancel()
+		ctx = cctx
+	}
+	msg := &pbv1.QBFTConsensusMsg{Msg: sm, Justification: []*pbv1.QBFTMsg{s0, s1}, Values: vals}
+	if prime {
+		gm := proto.Clone(gen[0]).(*pbv1.QBFTMsg)
+		g0 := proto.Clone(gen[1]).(*pbv1.QBFTMsg)
+		g1 := proto.Clone(gen[2]).(*pbv1.QBFTMsg)
+		_, _, errG := c.handle(ctx, "", &pbv1.QBFTConsensusMsg{Msg: gm, Justification: []*pbv1.QBFTMsg{g0, g1}, Values: []*anypb.Any{vAny(v0), vAny(v1)}})
+		vrt.Assert("the genuine message is accepted", errG == nil)
+	}
+	_, _, err := c.handle(ctx, "", msg)
 	inst, has := c.mutable.instances[duty]
+	if prime {
+		vrt.Assert("an altered copy of an already accepted message is rejected", err != nil)
+		vrt.Assert("the altered copy is not enqueued", has && len(inst.RecvBuffer) == 1)
+		vrt.Reach("rejected after genuine")
+		vrt.Reach("end")
+		return
+	}
+	if target == 7 {
+		vrt.Assert("nothing is accepted once the receive deadline has fired", err != nil)
+		vrt.Assert("a rejected message creates no consensus state", len(c.mutable.instances) == 0)
+		vrt.Reach("end")
+		return
+	}
 	if target == 0 {
 		vrt.Assert("a well-formed, correctly signed message is accepted", err == nil)
 		vrt.Assert("an accepted message is enqueued for its duty", has && len(inst.RecvBuffer) == 1)
